@@ -299,7 +299,12 @@ def run(ctx):
     fin = rng.random() < 0.6
     rand_specs.append(G.random_spec(rng, budget=rng.choice([3, 4, 5, 6, 8]), d=rng.choice([2, 3, 3, 4]), allow_inf=not fin,
                                     max_cands=rng.choice([3, 4, 5]), max_k=3))
-  specs = [(s, 'fixed') for s in FIXED_SPECS] + [(s, 'small') for s in chosen_small] + [(s, 'random') for s in rand_specs]
+  # order: fixed and the <= 2-point specs first; the 3-point sample and the random specs are shuffled together (seeded), so that
+  # when the wall-clock guard of the tier cuts the run short on a busy machine it cuts both groups proportionally
+  head = [(s, 'fixed') for s in FIXED_SPECS] + [(s, 'small') for s in chosen_small if G.count_points(s) <= 2]
+  tail = [(s, 'small') for s in chosen_small if G.count_points(s) > 2] + [(s, 'random') for s in rand_specs]
+  rng.shuffle(tail)
+  specs = head + tail
   if os.environ.get('C11_MAXSPECS'):
     specs = specs[::max(1, len(specs) // int(os.environ['C11_MAXSPECS']))]
   jobs = [(si, s, origin, rng.getrandbits(48), qtr, P) for si, (s, origin) in enumerate(specs)]
